@@ -7,7 +7,8 @@ Translated (fail-closed, anything outside the subset raises Unsupported):
                                     gen_perform_summation = plan, then sum over the range.
   * SumGrader.evaluate_sum       -> gen_evaluate_sum_pre (dummy variable already in scope), gen_evaluate_sum_limits
                                     (complex / non-integer limit checks), gen_evaluate_sum_cutoff (infty_val choice).
-    The statements in between (scope defaults, get_limits_and_funcs call, eval_summand closure, the final call of
+    The statements in between (scope defaults, get_limits_and_funcs call, the scope check of the summand that follows
+    the limit checks, eval_summand closure, the final call of
     perform_summation and the return) are compared with templates: they are mirrored by hand in Model/Summation.v.
   * SummationGraderBase.get_limits_and_funcs: template only.
 
@@ -273,6 +274,8 @@ def eval_summand(x):
     del varscope[summation_var]
     return value
 '''
+T_SUMMAND_SCOPE = ['summand_scope = varscope.copy()', 'summand_scope[summation_var] = 0',
+                   'parse(summand_str).check_scope(summand_scope, funcscope, self.suffixes)']
 T_SCOPE_DEFAULTS = ['varscope = {} if varscope is None else varscope', 'funcscope = {} if funcscope is None else funcscope']
 T_LIMITS_CALL = 'lower, upper, used_funcs = self.get_limits_and_funcs(summand_str, lower_str, upper_str, varscope, funcscope)'
 T_PERFORM_CALL = "result = self.perform_summation(eval_summand, lower, upper, self.config['even_odd'], infty_val)"
@@ -351,6 +354,11 @@ def translate_evaluate(fn):
     lim = []
     while i < len(body) and isinstance(body[i], ast.If):
         lim.append(body[i])
+        i += 1
+    # 2b. scope check of the summand (mirrored by hand in Model/Summation.v: an oracle call)
+    for src in T_SUMMAND_SCOPE:
+        if i >= len(body) or not same(body[i], src):
+            raise Unsupported('evaluate_sum: expected %r after the limit checks' % src)
         i += 1
     if i >= len(body) or not same(body[i], T_EVAL_SUMMAND):
         raise Unsupported('evaluate_sum: the eval_summand closure differs from the template')
